@@ -1219,3 +1219,47 @@ package sarama
 //@ func (child *partitionConsumer) interceptors(msg) props C18
 //@   ensures[ghost_kept] msg.chained == old(msg.chained)
 //@   modifies msg.Headers, msg.Timestamp, msg.BlockTimestamp, msg.Key, msg.Value, msg.Topic, msg.Partition, msg.Offset
+
+// ---------------------------------------------------------------------------------------------
+// partitioner options and constructors, and the producer honouring the choice (C17)
+
+//@ func WithAbsFirst#lit0(hp) props C17
+//@   ensures[sets_reference_abs] hp.referenceAbs
+//@   modifies hp.referenceAbs
+
+//@ func WithCustomFallbackPartitioner#lit0(hp) props C17
+//@   ensures[sets_random] hp.random == randomHP
+//@   modifies hp.random
+
+//@ func NewHashPartitioner(topic) props C17
+//@   returns r
+//@   ensures[fields] r != nil && !r.(*hashPartitioner).referenceAbs && r.(*hashPartitioner).random != nil
+
+//@ func NewReferenceHashPartitioner(topic) props C17
+//@   returns r
+//@   ensures[fields] r != nil && r.(*hashPartitioner).referenceAbs && r.(*hashPartitioner).random != nil
+
+//@ func (p *randomPartitioner) Partition(message, numPartitions) props C17
+//@   returns r, err
+//@   requires numPartitions >= 1
+//@   ensures[no_error] err == nil
+
+// partition ids are int32: a topic has fewer than 2^31 partitions; the metadata client leaves messages alone (A-own)
+//@ func (c Client) Partitions(topic) trusted
+//@   returns r, err
+//@   ensures len(r) <= 2147483647
+//@   modifies nothing
+//@ func (c Client) WritablePartitions(topic) trusted
+//@   returns r, err
+//@   ensures len(r) <= 2147483647
+//@   modifies nothing
+
+//@ func topicProducer.partitionMessage#lit0() props C17
+//@   callsite Partitions: requires[all_partitions_iff_consistent] requiresConsistency
+//@   callsite WritablePartitions: requires[writable_otherwise] !requiresConsistency
+
+//@ func (tp *topicProducer) partitionMessage(msg) props C17 C04
+//@   returns err
+//@   ensures[unchanged_on_error] err != nil ==> msg.Partition == old(msg.Partition)
+//@   ensures[honoured] err == nil ==> exists c :: 0 <= c && c < len(partitions) && msg.Partition == partitions[c]
+//@   callsite Partition: requires[count] $numPartitions == len(partitions) && $numPartitions >= 1
